@@ -85,6 +85,8 @@ pub struct Cfg {
     pub stall_budget: u32,
     /// upper bound of one stall in ns
     pub stall_max_ns: u64,
+    /// virtual time that passes with every schedule point (0 = infinitely fast CPU)
+    pub tick_ns: u64,
     /// probability (per thousand) that a compare_exchange_weak fails spuriously
     pub cas_weak_pm: u32,
     /// probability (per thousand) that a thread park returns spuriously
@@ -105,6 +107,7 @@ impl Cfg {
             stall_ppm: 0,
             stall_budget: 0,
             stall_max_ns: 0,
+            tick_ns: 0,
             cas_weak_pm: 0,
             spurious_park_pm: 0,
             io_always: false,
@@ -197,6 +200,8 @@ pub struct Inner {
     finished: bool,
     time_jumps: u64,
     extra: Vec<(String, String)>,
+    replay_out: Option<std::ffi::CString>,
+    argv: Vec<String>,
 }
 
 const RING: usize = 4096;
@@ -373,13 +378,12 @@ impl Inner {
         Some(choice)
     }
 
-    fn result_json(&self, verdict: &str, msg: &str) -> String {
-        let mut s = String::with_capacity(1024);
+    fn write_result(&self, s: &mut dyn std::fmt::Write, verdict: &str, msg: &str) {
+        let _ = write!(s, "{{\"verdict\":\"{}\",\"msg\":", verdict);
+        write_json_str(s, msg);
         let _ = write!(
             s,
-            "{{\"verdict\":\"{}\",\"msg\":{},\"seed\":{},\"steps\":{},\"switches\":{},\"vt_ns\":{},\"time_jumps\":{},\"hash\":\"{:016x}\",\"sched_fp\":\"{:016x}\",\"threads\":{},\"strategy\":\"{}\",\"pairs\":{}",
-            verdict,
-            json_str(msg),
+            ",\"seed\":{},\"steps\":{},\"switches\":{},\"vt_ns\":{},\"time_jumps\":{},\"hash\":\"{:016x}\",\"sched_fp\":\"{:016x}\",\"threads\":{},\"strategy\":\"",
             self.cfg.seed,
             self.step,
             self.switches,
@@ -388,87 +392,106 @@ impl Inner {
             self.hash,
             self.sw_hash,
             self.th.len(),
-            strategy_name(&self.cfg.strategy),
-            self.pairs.len(),
         );
-        s.push_str(",\"faults\":{");
+        match &self.cfg.strategy {
+            Strategy::Rw => {
+                let _ = s.write_str("rw");
+            }
+            Strategy::Sticky(p) => {
+                let _ = write!(s, "sticky{}", p);
+            }
+            Strategy::Pct { depth, .. } => {
+                let _ = write!(s, "pct{}", depth);
+            }
+            Strategy::Replay => {
+                let _ = s.write_str("replay");
+            }
+        }
+        let _ = write!(s, "\",\"pairs\":{}", self.pairs.len());
+        let _ = s.write_str(",\"faults\":{");
         let mut first = true;
         for k in 1..FAULT_NAMES.len() {
             if self.fault_counts[k] > 0 {
                 if !first {
-                    s.push(',');
+                    let _ = s.write_char(',');
                 }
                 first = false;
                 let _ = write!(s, "\"{}\":{}", FAULT_NAMES[k], self.fault_counts[k]);
             }
         }
-        s.push_str("},\"probes\":{");
+        let _ = s.write_str("},\"probes\":{");
         for (i, (n, c)) in self.probes.iter().enumerate() {
             if i > 0 {
-                s.push(',');
+                let _ = s.write_char(',');
             }
-            let _ = write!(s, "{}:{}", json_str(n), c);
+            write_json_str(s, n);
+            let _ = write!(s, ":{}", c);
         }
-        s.push('}');
+        let _ = s.write_char('}');
         for (k, v) in &self.extra {
-            let _ = write!(s, ",{}:{}", json_str(k), v);
+            let _ = s.write_char(',');
+            write_json_str(s, k);
+            let _ = write!(s, ":{}", v);
         }
-        s.push('}');
-        s
+        let _ = s.write_char('}');
     }
 
-    /// write the replay file (decisions + faults + trace tail) if asked to
+    /// write the replay file (decisions + faults + trace tail) if asked to; allocation
+    /// free, it also runs from the fatal-signal handler on a corrupted heap
     fn dump_replay(&self, verdict: &str, msg: &str) {
-        let path = match std::env::var("VERIF_REPLAY_OUT") {
-            Ok(p) if !p.is_empty() => p,
-            _ => return,
+        let path = match &self.replay_out {
+            Some(p) => p,
+            None => return,
         };
-        let mut s = String::new();
+        let fd = unsafe { libc::open(path.as_ptr(), libc::O_WRONLY | libc::O_CREAT | libc::O_TRUNC, 0o644) };
+        if fd < 0 {
+            return;
+        }
+        let mut w = FdWriter::new(fd);
+        let s: &mut dyn std::fmt::Write = &mut w;
+        let _ = write!(s, "{{\"verdict\":\"{}\",\"msg\":", verdict);
+        write_json_str(s, msg);
         let _ = write!(
             s,
-            "{{\"verdict\":\"{}\",\"msg\":{},\"seed\":{},\"steps\":{},\"hash\":\"{:016x}\",\n\"argv\":[",
-            verdict,
-            json_str(msg),
-            self.cfg.seed,
-            self.step,
-            self.hash
+            ",\"seed\":{},\"steps\":{},\"hash\":\"{:016x}\",\n\"argv\":[",
+            self.cfg.seed, self.step, self.hash
         );
-        for (i, a) in std::env::args().skip(1).enumerate() {
+        for (i, a) in self.argv.iter().enumerate() {
             if i > 0 {
-                s.push(',');
+                let _ = s.write_char(',');
             }
-            s.push_str(&json_str(&a));
+            write_json_str(s, a);
         }
-        s.push_str("],\n\"decisions\":[");
+        let _ = s.write_str("],\n\"decisions\":[");
         for (i, (st, t)) in self.decisions.iter().enumerate() {
             if i > 0 {
-                s.push(',');
+                let _ = s.write_char(',');
             }
             let _ = write!(s, "[{},{}]", st, t);
         }
-        s.push_str("],\n\"faults\":[");
+        let _ = s.write_str("],\n\"faults\":[");
         for (i, (st, k, a)) in self.faults.iter().enumerate() {
             if i > 0 {
-                s.push(',');
+                let _ = s.write_char(',');
             }
             let _ = write!(s, "[{},{},{}]", st, k, a);
         }
-        s.push_str("],\n\"threads\":[");
+        let _ = s.write_str("],\n\"threads\":[");
         for (i, t) in self.th.iter().enumerate() {
             if i > 0 {
-                s.push(',');
+                let _ = s.write_char(',');
             }
-            let _ = write!(s, "{}", json_str(&format!("{} {:?}", t.name, t.st)));
+            let _ = s.write_char('"');
+            let _ = write!(s, "{} {:?}", t.name, t.st);
+            let _ = s.write_char('"');
         }
-        s.push_str("],\n\"trace_tail\":[\n");
+        let _ = s.write_str("],\n\"trace_tail\":[\n");
         let n = self.ring.len();
-        let mut first = true;
         for k in 0..n {
             let e = &self.ring[(self.ring_pos + k) % n];
-            if !first {
-                s.push_str(",\n");
+            if k > 0 {
+                let _ = s.write_str(",\n");
             }
-            first = false;
             let _ = write!(
                 s,
                 "\"{} t{} {} {}:{}\"",
@@ -479,33 +502,39 @@ impl Inner {
                 e.line
             );
         }
-        s.push_str("\n]}\n");
-        let _ = std::fs::write(path, s);
+        let _ = s.write_str("\n]}\n");
+        w.flush();
+        unsafe { libc::close(fd) };
     }
 
     /// print the result line and leave the process; never returns
     fn finish_now(&mut self, verdict: &str, msg: &str) -> ! {
         self.finished = true;
-        let line = self.result_json(verdict, msg);
         if verdict != "ok" {
             self.dump_replay(verdict, msg);
         }
         if self.cfg.trace {
             self.dump_trace();
         }
-        use std::io::Write;
-        let out = std::io::stdout();
-        let mut o = out.lock();
-        let _ = writeln!(o, "RESULT {}", line);
-        let _ = o.flush();
+        let mut w = FdWriter::new(1);
+        {
+            let s: &mut dyn std::fmt::Write = &mut w;
+            let _ = s.write_str("RESULT ");
+            self.write_result(s, verdict, msg);
+            let _ = s.write_char('\n');
+        }
+        w.flush();
         unsafe { libc::_exit(0) }
     }
 
     fn dump_trace(&self) {
+        let mut w = FdWriter::new(2);
         let n = self.ring.len();
         for k in 0..n {
             let e = &self.ring[(self.ring_pos + k) % n];
-            eprintln!(
+            let s: &mut dyn std::fmt::Write = &mut w;
+            let _ = writeln!(
+                s,
                 "T {} t{}({}) {} {}:{}",
                 e.step,
                 e.tid,
@@ -515,7 +544,66 @@ impl Inner {
                 e.line
             );
         }
+        w.flush();
     }
+}
+
+/// buffered writer straight to a file descriptor, no heap allocation
+struct FdWriter {
+    fd: i32,
+    n: usize,
+    buf: [u8; 2048],
+}
+
+impl FdWriter {
+    fn new(fd: i32) -> FdWriter {
+        FdWriter {
+            fd,
+            n: 0,
+            buf: [0; 2048],
+        }
+    }
+
+    fn flush(&mut self) {
+        let mut off = 0;
+        while off < self.n {
+            let r = unsafe { libc::write(self.fd, self.buf[off..].as_ptr() as *const libc::c_void, self.n - off) };
+            if r <= 0 {
+                break;
+            }
+            off += r as usize;
+        }
+        self.n = 0;
+    }
+}
+
+impl std::fmt::Write for FdWriter {
+    fn write_str(&mut self, s: &str) -> std::fmt::Result {
+        for chunk in s.as_bytes().chunks(1024) {
+            if self.n + chunk.len() > self.buf.len() {
+                self.flush();
+            }
+            self.buf[self.n..self.n + chunk.len()].copy_from_slice(chunk);
+            self.n += chunk.len();
+        }
+        Ok(())
+    }
+}
+
+fn write_json_str(o: &mut dyn std::fmt::Write, s: &str) {
+    let _ = o.write_char('"');
+    for c in s.chars() {
+        let _ = match c {
+            '"' => o.write_str("\\\""),
+            '\\' => o.write_str("\\\\"),
+            '\n' => o.write_str("\\n"),
+            '\r' => o.write_str("\\r"),
+            '\t' => o.write_str("\\t"),
+            c if (c as u32) < 0x20 => write!(o, "\\u{:04x}", c as u32),
+            c => o.write_char(c),
+        };
+    }
+    let _ = o.write_char('"');
 }
 
 fn short_file(f: &str) -> &str {
@@ -627,8 +715,9 @@ impl Engine {
                     }
                     if inner.now > inner.cfg.vt_limit {
                         let msg = format!(
-                            "no completion within {} ns of virtual time; {}",
+                            "no completion within {} ns of virtual time; {}; {}",
                             inner.cfg.vt_limit,
+                            diag(),
                             inner.thread_dump()
                         );
                         inner.finish_now("hung", &msg);
@@ -644,6 +733,19 @@ impl Engine {
         debug_assert_eq!(inner.cur, me, "thread {} runs without the baton", me);
         inner.step += 1;
         HEARTBEAT.fetch_add(1, Ordering::Relaxed);
+        if inner.cfg.tick_ns > 0 {
+            // time passes while threads run: a thread spinning on a stalled or
+            // sleeping one must not freeze the clock
+            inner.now += inner.cfg.tick_ns;
+            let now = inner.now;
+            for i in 0..inner.th.len() {
+                if let St::Blocked(_) = inner.th[i].st {
+                    if inner.th[i].wake_at <= now {
+                        inner.make_runnable(i, false);
+                    }
+                }
+            }
+        }
         let sh = site_hash(loc);
         inner.hash = mix(inner.hash, sh ^ ((me as u64) << 56) ^ ((op as u64) << 48));
         if inner.last_site & 0x8000_0000_0000_0000 != 0 {
@@ -667,7 +769,7 @@ impl Engine {
             inner.ring_pos = (p + 1) % RING;
         }
         if inner.step > inner.cfg.max_steps {
-            let msg = format!("step budget {} exhausted; {}", inner.cfg.max_steps, inner.thread_dump());
+            let msg = format!("step budget {} exhausted; {}; {}", inner.cfg.max_steps, diag(), inner.thread_dump());
             inner.finish_now("livelock", &msg);
         }
     }
@@ -1079,11 +1181,71 @@ pub fn init(cfg: Cfg) {
         finished: false,
         time_jumps: 0,
         extra: Vec::new(),
+        replay_out: std::env::var("VERIF_REPLAY_OUT").ok().filter(|p| !p.is_empty()).and_then(|p| std::ffi::CString::new(p).ok()),
+        argv: std::env::args().skip(1).collect(),
     };
     set_tid(0);
-    *ENGINE.lock() = Some(inner);
+    {
+        let mut g = ENGINE.lock();
+        *g = Some(inner);
+        INNER_PTR.store(&mut *g as *mut Option<Inner>, Ordering::Relaxed);
+    }
     may_queue::verif::install(&ENGINE);
+    install_signal_handlers();
     start_watchdog();
+}
+
+extern "C" fn on_fatal_signal(sig: libc::c_int) {
+    // memory corruption or an abort of the code under test: report the run as a
+    // crash together with the schedule that led to it
+    let name = match sig {
+        libc::SIGSEGV => "SIGSEGV",
+        libc::SIGABRT => "SIGABRT",
+        libc::SIGBUS => "SIGBUS",
+        libc::SIGILL => "SIGILL",
+        _ => "signal",
+    };
+    // the lock may be held by this very thread (an allocation inside the engine found
+    // the corrupted heap): only one thread runs at a time, so go through the raw pointer
+    let p = INNER_PTR.load(Ordering::Relaxed);
+    if !p.is_null() {
+        if let Some(i) = unsafe { (*p).as_mut() } {
+            if !i.finished {
+                let msg = format!("process received {} (memory corruption / abort in the code under test)", name);
+                i.finish_now("crash", &msg);
+            }
+        }
+    }
+    unsafe { libc::_exit(70) }
+}
+
+static INNER_PTR: std::sync::atomic::AtomicPtr<Option<Inner>> = std::sync::atomic::AtomicPtr::new(std::ptr::null_mut());
+
+fn install_signal_handlers() {
+    unsafe {
+        // alternate stack: the fault may be a stack overflow of a coroutine
+        let sz = 1 << 16;
+        let stack = libc::mmap(
+            std::ptr::null_mut(),
+            sz,
+            libc::PROT_READ | libc::PROT_WRITE,
+            libc::MAP_PRIVATE | libc::MAP_ANONYMOUS,
+            -1,
+            0,
+        );
+        let ss = libc::stack_t {
+            ss_sp: stack,
+            ss_flags: 0,
+            ss_size: sz,
+        };
+        libc::sigaltstack(&ss, std::ptr::null_mut());
+        for sig in [libc::SIGSEGV, libc::SIGABRT, libc::SIGBUS, libc::SIGILL] {
+            let mut sa: libc::sigaction = std::mem::zeroed();
+            sa.sa_sigaction = on_fatal_signal as usize;
+            sa.sa_flags = libc::SA_ONSTACK | libc::SA_NODEFER;
+            libc::sigaction(sig, &sa, std::ptr::null_mut());
+        }
+    }
 }
 
 fn start_watchdog() {
@@ -1294,6 +1456,29 @@ pub fn violation(msg: &str) -> ! {
 /// the scenario completed and all its checks passed
 pub fn finish_ok() -> ! {
     fail("ok", "")
+}
+
+/// move the hang horizon (virtual time after which the run is declared hung)
+pub fn set_vt_limit(t: u64) {
+    let mut g = ENGINE.lock();
+    if let Some(i) = g.as_mut() {
+        i.cfg.vt_limit = t;
+    }
+}
+
+static DIAG: Mutex<Option<fn() -> String>> = Mutex::new(None);
+
+/// scenario-specific diagnostics appended to hung / livelock verdicts
+pub fn set_diag(f: fn() -> String) {
+    *DIAG.lock().unwrap() = Some(f);
+}
+
+fn diag() -> String {
+    let f = match DIAG.try_lock() {
+        Ok(g) => *g,
+        Err(_) => None,
+    };
+    f.map(|f| f()).unwrap_or_default()
 }
 
 pub fn thread_dump() -> String {
